@@ -1006,4 +1006,31 @@ def body_SerializableOrderedMap_Decode : List String := [
   "return bytesRead,nil"
 ]
 
+/-! helpers of `CheckTypePrefix` (error.go) and of `ReadNum` -/
+
+def body_CheckType : List String := [
+  "if len(data)<UInt32ByteSize {",
+  "return ERR",
+  "}",
+  "actualType:=binary.LittleEndian.Uint32(data)",
+  "if actualType!=shouldType {",
+  "return ERR",
+  "}",
+  "return nil"
+]
+
+def body_CheckTypeByte : List String := [
+  "if len(data)==0 {",
+  "return ERR",
+  "}",
+  "if data[0]!=shouldType {",
+  "return ERR",
+  "}",
+  "return nil"
+]
+
+def body_numSize : List String := [
+  "switchdata:=data.(type){casebool,int8,uint8,*bool,*int8,*uint8:returnOneBytecaseint16,*int16:returnInt16ByteSizecaseuint16,*uint16:returnUInt16ByteSizecaseint32,*int32:returnInt32ByteSizecaseuint32,*uint32:returnUInt32ByteSizecaseint64,*int64:returnInt64ByteSizecaseuint64,*uint64:returnUInt64ByteSizecasefloat32,*float32:returnFloat32ByteSizecasefloat64,*float64:returnFloat64ByteSizedefault:panic(fmt.Sprintf(\"unsupportednumSizetype%T\",data))}"
+]
+
 end Hive.Spec.DeserFacts
